@@ -136,6 +136,13 @@ Fixpoint lcp (a b : list str) : list str :=
 Definition commonpath2 (a b : str) : str :=
   (if is_abs a then [sep] else []) ++ join (lcp (segs a) (segs b)).
 
+(** [os.path.commonprefix([a, b])]: the longest common prefix taken character by character *)
+Fixpoint char_lcp (a b : str) : str :=
+  match a, b with
+  | x :: a', y :: b' => if N.eqb x y then x :: char_lcp a' b' else []
+  | _, _ => []
+  end.
+
 (** ---------------------------------------------------------------- the guard language *)
 Inductive sx : Type :=
 | SAbs                                  (* abs_path *)
@@ -145,7 +152,8 @@ Inductive sx : Type :=
 | SRStrip (a : sx)                      (* a.rstrip(os.sep) *)
 | SJoin (a b : sx)                      (* os.path.join(a, b) *)
 | SCommon (a b : sx)                    (* os.path.commonpath([a, b]) *)
-| SIfEndsSep (c a b : sx).              (* a if c.endswith(os.sep) else b *)
+| SIfEndsSep (c a b : sx)               (* a if c.endswith(os.sep) else b *)
+| SCommonPrefix (a b : sx).             (* os.path.commonprefix([a, b]): CHARACTER-wise; never accepted as a guard *)
 
 Inductive gx : Type :=
 | GConstrain                            (* self.constrain_path *)
@@ -169,6 +177,7 @@ Fixpoint seval (e : env) (x : sx) : str :=
   | SJoin a b => pjoin (seval e a) (seval e b)
   | SCommon a b => commonpath2 (seval e a) (seval e b)
   | SIfEndsSep c a b => if ends_sep (seval e c) then seval e a else seval e b
+  | SCommonPrefix a b => char_lcp (seval e a) (seval e b)
   end.
 
 Fixpoint geval (e : env) (g : gx) : bool :=
@@ -289,6 +298,15 @@ Fixpoint stays_below (depth : nat) (l : list str) : bool :=
   | [] => true
   | c :: r => if is_dotdot c then match depth with O => false | S d => stays_below d r end
               else stays_below (S depth) r
+  end.
+
+(** Following segments from a directory given as the stack of its components (innermost first):
+    a name goes down, '..' goes up; [None] = tried to go above the top of the stack. *)
+Fixpoint follow (stack : list str) (l : list str) : option (list str) :=
+  match l with
+  | [] => Some stack
+  | c :: r => if is_dotdot c then match stack with [] => None | _ :: s => follow s r end
+              else follow (c :: stack) r
   end.
 
 (** ---------------------------------------------------------------- literals for examples *)
